@@ -538,8 +538,11 @@ def var_period(v):
     if v.get("vec"):
         return 0.0
     homog = all(c.get("exp", 1) == 1 and abs(abs(c.get("coeff", 1.0)) - 1.0) < 1e-10 for c in v["cvcs"])
-    if homog and v["cvcs"][0]["kind"] in PERIODIC:
-        return PERIODIC[v["cvcs"][0]["kind"]]
+    # colvar::init_components walks global_cvc_map (a std::map keyed by the configuration keyword), so cvcs[0] is the
+    # component with the alphabetically first keyword (config order among components of the same keyword)
+    first = min(v["cvcs"], key=lambda c: KINDS[c["kind"]][0])
+    if homog and first["kind"] in PERIODIC:
+        return PERIODIC[first["kind"]]
     return 0.0
 
 
